@@ -28,10 +28,10 @@ def run(tier, seed):
         f.write("SPECIFICATION Spec\nCHECK_DEADLOCK FALSE\n")
     cp = os.path.join(wd, "cases.ndjson")
     if tier == "quick":
-        args = ["--nmax", 3, "--mmax", 2, "--random", 150, "--rn", 5, "--rm", 7]
+        args = ["--nmax", 3, "--mmax", 2, "--random", 150, "--rn", 5, "--rm", 7, "--blocks", 40]
         nchunks = 6
     else:
-        args = ["--nmax", 3, "--mmax", 3, "--random", 1500, "--rn", 6, "--rm", 9]
+        args = ["--nmax", 3, "--mmax", 3, "--random", 1500, "--rn", 6, "--rm", 9, "--blocks", 600]
         nchunks = 12
     V.gv(["galgo", "--seed", seed, "--out", cp] + args, timeout=1800)
     cases = V.read_ndjson(cp)
